@@ -30,13 +30,26 @@ import (
 
 	"verif/harness/internal/c0203"
 	"verif/harness/internal/gen"
+	"verif/harness/internal/simcore"
 )
 
 // ---------------------------------------------------------------- case description
 
 type Fault struct {
-	Kind string `json:"kind"` // failed | lost | killed | executor | agent | internal
+	Kind string `json:"kind"` // failed | lost | killed | error | executor | agent | internal
 	V    int    `json:"v"`    // task position (agent: the task whose agent is lost)
+	L    *Label `json:"l,omitempty"`
+}
+
+// Label: how the report of the failure is labelled and routed (nil: the simulated executor's own
+// update: REASON_COMMAND_EXECUTOR_FAILED, SOURCE_EXECUTOR, UUID, all ids and labels)
+type Label struct {
+	Reason string `json:"reason,omitempty"` // "" default | none | reconciliation | agent_removed | executor_terminated | mem_limit | gc_error
+	Src    string `json:"src,omitempty"`    // "" executor | master | agent | none
+	Path   string `json:"path,omitempty"`   // "" plain update | reconnect: the task dies unreported, the core is
+	// disconnected and subscribes again, the death arrives as the master's answer to the implicit reconciliation
+	Bare   bool `json:"bare,omitempty"`   // no agent id, executor id, labels (executor FAILURE: executor id only)
+	NoUUID bool `json:"nouuid,omitempty"` // not to be acknowledged
 }
 
 type Op struct {
@@ -229,8 +242,74 @@ var gate = &roleGate{}
 
 // ---------------------------------------------------------------- running one case
 
-var mesosState = map[string]mesos.TaskState{"failed": mesos.TASK_FAILED, "lost": mesos.TASK_LOST, "killed": mesos.TASK_KILLED}
-var kindCode = map[string]int{"failed": 1, "lost": 2, "killed": 3, "executor": 4, "agent": 5, "internal": 6}
+var mesosState = map[string]mesos.TaskState{"failed": mesos.TASK_FAILED, "lost": mesos.TASK_LOST, "killed": mesos.TASK_KILLED, "error": mesos.TASK_ERROR}
+var kindCode = map[string]int{"failed": 1, "lost": 2, "killed": 3, "executor": 4, "agent": 5, "internal": 6, "error": 7}
+var reasonNames = []string{"", "none", "reconciliation", "agent_removed", "executor_terminated", "mem_limit", "gc_error"}
+var srcNames = []string{"", "master", "agent", "none"}
+
+func reasonOf(name string) *mesos.TaskStatus_Reason {
+	var r mesos.TaskStatus_Reason
+	switch name {
+	case "none":
+		return nil
+	case "reconciliation":
+		r = mesos.REASON_RECONCILIATION
+	case "agent_removed":
+		r = mesos.REASON_AGENT_REMOVED
+	case "executor_terminated":
+		r = mesos.REASON_EXECUTOR_TERMINATED
+	case "mem_limit":
+		r = mesos.REASON_CONTAINER_LIMITATION_MEMORY
+	case "gc_error":
+		r = mesos.REASON_GC_ERROR
+	default:
+		r = mesos.REASON_COMMAND_EXECUTOR_FAILED
+	}
+	return &r
+}
+
+func sourceOf(name string) *mesos.TaskStatus_Source {
+	var x mesos.TaskStatus_Source
+	switch name {
+	case "none":
+		return nil
+	case "master":
+		x = mesos.SOURCE_MASTER
+	case "agent":
+		x = mesos.SOURCE_AGENT
+	default:
+		x = mesos.SOURCE_EXECUTOR
+	}
+	return &x
+}
+
+func indexOf(xs []string, x string) int {
+	for i, y := range xs {
+		if x == y {
+			return i
+		}
+	}
+	return 0
+}
+
+// labelCode: kind + 10*reason + 100*source + 1000*reconnect path + 2000*bare + 4000*no uuid (for the record
+// in the case term; the model does not look at it: the label must not matter)
+func labelCode(f Fault) int {
+	c := kindCode[f.Kind]
+	if f.L != nil {
+		c += 10*indexOf(reasonNames, f.L.Reason) + 100*indexOf(srcNames, f.L.Src)
+		if f.L.Path == "reconnect" {
+			c += 1000
+		}
+		if f.L.Bare {
+			c += 2000
+		}
+		if f.L.NoUUID {
+			c += 4000
+		}
+	}
+	return c
+}
 var runEvCode = map[string]int{"START_ACTIVITY/STARTED": 1, "START_ACTIVITY/DONE_OK": 2, "START_ACTIVITY/DONE_ERROR": 3,
 	"STOP_ACTIVITY/STARTED": 4, "STOP_ACTIVITY/DONE_OK": 5, "STOP_ACTIVITY/DONE_ERROR": 6, "GO_ERROR/STARTED": 7, "GO_ERROR/DONE_OK": 8}
 var trigger = map[string]string{"START": "before_START_ACTIVITY", "STOP": "before_STOP_ACTIVITY", "RESET": "before_RESET", "CONFIGURE": "before_CONFIGURE"}
@@ -260,6 +339,15 @@ func (c *caseRun) taskId(i int) string {
 	return c.w.RosterTaskId(pathFor(c.in)(c.name, i))
 }
 
+// goneWith: the tasks of a lost executor / agent are gone; the simulated master must not report them
+// as running in a later reconciliation
+func (c *caseRun) goneWith(vs []int) {
+	for _, i := range vs {
+		c.w.Sim.DieUnreported(c.taskId(i))
+		c.book.simTerminal[i] = true
+	}
+}
+
 // inject performs the fault and returns the task positions it hits in the core (the victims):
 // whom the core associates with the failed executor / agent is read from its roster beforehand
 // (one executor per accepted offer: the tasks of an environment on one host share it)
@@ -276,13 +364,36 @@ func (c *caseRun) inject(f Fault) []int {
 	roster := c.w.Sim.Taskman.VerifRoster()
 	vs := []int{}
 	switch f.Kind {
-	case "failed", "lost", "killed":
+	case "failed", "lost", "killed", "error":
 		for _, r := range roster {
 			if r.TaskId == tid && r.Locked && !c.book.simTerminal[f.V] {
 				vs = []int{f.V}
 			}
 		}
-		c.w.Sim.FailTask(tid, mesosState[f.Kind])
+		switch {
+		case c.book.simTerminal[f.V]:
+			// already reported dead: a simulated task reports its end once
+		case f.L == nil:
+			c.w.Sim.FailTask(tid, mesosState[f.Kind])
+		case f.L.Path == "reconnect":
+			// the task dies while the core is cut off; after the new subscription the master answers
+			// the implicit reconciliation with the terminal state (no UUID: nothing to acknowledge)
+			c.w.Sim.DieUnreported(tid)
+			from := len(c.w.Sim.CallsSnapshot())
+			c.w.Sim.Reconnect()
+			waitFor(10*time.Second, func() bool {
+				sub, rec := false, false
+				for _, k := range c.w.Sim.CallsSnapshot()[from:] {
+					sub = sub || k.Type == "SUBSCRIBE"
+					rec = rec || (sub && k.Type == "RECONCILE")
+				}
+				return rec
+			})
+			time.Sleep(5 * time.Millisecond)
+			c.w.Sim.SendStatus(tid, mesosState[f.Kind], simcore.StatusLabel{Reason: reasonOf("reconciliation"), Source: sourceOf("master"), Bare: f.L.Bare})
+		default:
+			c.w.Sim.SendStatus(tid, mesosState[f.Kind], simcore.StatusLabel{Reason: reasonOf(f.L.Reason), Source: sourceOf(f.L.Src), UUID: !f.L.NoUUID, Bare: f.L.Bare})
+		}
 		c.book.simTerminal[f.V] = true
 	case "executor":
 		ex := c.w.ExecutorOf(tid)
@@ -291,7 +402,12 @@ func (c *caseRun) inject(f Fault) []int {
 				vs = append(vs, i)
 			}
 		}
-		c.w.Sim.FailExecutor(c.w.AgentOf(tid), ex)
+		if f.L != nil && f.L.Bare {
+			c.w.Sim.FailExecutorBare(ex)
+		} else {
+			c.w.Sim.FailExecutor(c.w.AgentOf(tid), ex)
+		}
+		c.goneWith(vs)
 	case "agent":
 		ag := c.w.AgentOf(tid)
 		for _, r := range roster {
@@ -300,6 +416,7 @@ func (c *caseRun) inject(f Fault) []int {
 			}
 		}
 		c.w.Sim.FailAgent(ag)
+		c.goneWith(vs)
 	case "internal":
 		vs = []int{f.V}
 		c.w.Sim.DeviceEvent(tid, "TASK_INTERNAL_ERROR", nil)
@@ -824,7 +941,7 @@ func caseTerm(in Input, obs []StepObs) string {
 	kinds := []int{}
 	if in.Early != nil {
 		early = "(Some " + faultTerm(*in.Early, victims(0, *in.Early)) + ")"
-		kinds = append(kinds, kindCode[in.Early.Kind])
+		kinds = append(kinds, labelCode(*in.Early))
 	}
 	ops := make([]string, len(in.Ops))
 	for i, o := range in.Ops {
@@ -833,10 +950,10 @@ func caseTerm(in Input, obs []StepObs) string {
 			ops[i] = fmt.Sprintf("SCmd %s %s", o.Ev, ocTerm(o.Oc))
 		case "fault":
 			ops[i] = fmt.Sprintf("SFault %s %s", faultTerm(*o.F, victims(i+1, *o.F)), ocTerm(o.Oc))
-			kinds = append(kinds, kindCode[o.F.Kind])
+			kinds = append(kinds, labelCode(*o.F))
 		case "cmdfault":
 			ops[i] = fmt.Sprintf("SCmdFault %s %s %s", o.Ev, faultTerm(*o.F, victims(i+1, *o.F)), ocTerm(o.Oc))
-			kinds = append(kinds, kindCode[o.F.Kind])
+			kinds = append(kinds, labelCode(*o.F))
 		case "race":
 			// held at the hand-over and overtaken: SRace; otherwise (role already in ERROR: no role
 			// event, nothing to hold) it was an ordinary idle fault
@@ -845,7 +962,7 @@ func caseTerm(in Input, obs []StepObs) string {
 			} else {
 				ops[i] = fmt.Sprintf("SFault %s %s", faultTerm(*o.F, victims(i+1, *o.F)), ocTerm(o.Oc))
 			}
-			kinds = append(kinds, kindCode[o.F.Kind])
+			kinds = append(kinds, labelCode(*o.F))
 		}
 	}
 	os := make([]string, len(obs))
@@ -858,7 +975,28 @@ func caseTerm(in Input, obs []StepObs) string {
 // ---------------------------------------------------------------- generators
 
 var modes = []string{"basic", "direct", "fairmq"}
-var kindsAll = []string{"failed", "lost", "killed", "executor", "agent", "internal"}
+var kindsAll = []string{"failed", "lost", "killed", "executor", "agent", "internal", "error"}
+
+// genLabel: half of the failures are reported as the simulated executor does; the others vary the
+// reason code, the source, the optional fields and (1 in 12) the route: reconciliation answer after
+// a reconnection
+func genLabel(r *gen.Rand, f *Fault, allowReconnect bool) {
+	switch f.Kind {
+	case "failed", "lost", "killed", "error":
+		if r.Chance(1, 2) {
+			return
+		}
+		l := &Label{Reason: reasonNames[r.Intn(len(reasonNames))], Src: srcNames[r.Intn(len(srcNames))], Bare: r.Chance(1, 5), NoUUID: r.Chance(1, 4)}
+		if allowReconnect && r.Chance(1, 6) {
+			l = &Label{Path: "reconnect", Bare: r.Chance(1, 5)}
+		}
+		f.L = l
+	case "executor":
+		if r.Chance(1, 3) {
+			f.L = &Label{Bare: true}
+		}
+	}
+}
 
 func acks(n int) []string {
 	out := make([]string, n)
@@ -965,7 +1103,8 @@ func genCase(r *gen.Rand) (Input, string) {
 	if r.Chance(1, 8) {
 		kind += "-early"
 		v := g.pickVictim(r.Chance(3, 5))
-		f := Fault{Kind: kindsAll[r.Intn(6)], V: v}
+		f := Fault{Kind: kindsAll[r.Intn(7)], V: v}
+		genLabel(r, &f, false)
 		in.Early = &f
 		g.kill(f) // a critical victim: the environment goes to ERROR at once, the script is not reached
 	}
@@ -997,10 +1136,11 @@ func genCase(r *gen.Rand) (Input, string) {
 			if v < 0 {
 				continue
 			}
-			f := Fault{Kind: kindsAll[r.Intn(6)], V: v}
+			f := Fault{Kind: kindsAll[r.Intn(7)], V: v}
 			if g.state == "RUNNING" && r.Chance(1, 4) {
 				f.Kind = "internal"
 			}
+			genLabel(r, &f, true)
 			oc := acks(n)
 			if f.Kind == "internal" && r.Chance(1, 2) {
 				oc[v] = "errerr" // a device in ERROR refuses the STOP
@@ -1036,7 +1176,8 @@ func genCase(r *gen.Rand) (Input, string) {
 			if v < 0 {
 				continue
 			}
-			f := Fault{Kind: kindsAll[r.Intn(6)], V: v}
+			f := Fault{Kind: kindsAll[r.Intn(7)], V: v}
+			genLabel(r, &f, false)
 			in.Ops = append(in.Ops, Op{Kind: "cmdfault", Ev: ev, F: &f, Oc: acks(n)})
 			crit := g.kill(f)
 			g.state = map[string]string{"START": "RUNNING", "STOP": "CONFIGURED", "RESET": "DEPLOYED", "CONFIGURE": "CONFIGURED"}[ev]
@@ -1069,34 +1210,49 @@ func corpus() []job {
 	a2 := []string{"ack", "ack"}
 	// regression cases of the repaired findings (they were the witnesses of the refutation theorems)
 	// C03-a: the critical task dies inside an after_CONFIGURE hook of the creation
-	add("corpus-early-critical", Input{Tasks: two, Early: &Fault{"failed", 0}})
+	add("corpus-early-critical", Input{Tasks: two, Early: &Fault{Kind: "failed", V: 0}})
 	// C03-c: TASK_INTERNAL_ERROR of the non-critical task while RUNNING
-	add("corpus-internal-noncritical", Input{Tasks: two, Ops: []Op{{Kind: "cmd", Ev: "START", Oc: a2}, {Kind: "fault", F: &Fault{"internal", 1}, Oc: a2}}})
+	add("corpus-internal-noncritical", Input{Tasks: two, Ops: []Op{{Kind: "cmd", Ev: "START", Oc: a2}, {Kind: "fault", F: &Fault{Kind: "internal", V: 1}, Oc: a2}}})
 	// C03-d: TASK_INTERNAL_ERROR of the critical task while CONFIGURED
-	add("corpus-internal-critical-configured", Input{Tasks: two, Ops: []Op{{Kind: "fault", F: &Fault{"internal", 0}, Oc: a2}}})
+	add("corpus-internal-critical-configured", Input{Tasks: two, Ops: []Op{{Kind: "fault", F: &Fault{Kind: "internal", V: 0}, Oc: a2}}})
 	// positive side: every kind of failure of the critical task, RUNNING and CONFIGURED
 	for _, k := range []string{"failed", "lost", "killed", "executor", "agent"} {
-		add("corpus-critical-running-"+k, Input{Tasks: two, Ops: []Op{{Kind: "cmd", Ev: "START", Oc: a2}, {Kind: "fault", F: &Fault{k, 0}, Oc: a2}}})
+		add("corpus-critical-running-"+k, Input{Tasks: two, Ops: []Op{{Kind: "cmd", Ev: "START", Oc: a2}, {Kind: "fault", F: &Fault{Kind: k, V: 0}, Oc: a2}}})
 	}
-	add("corpus-critical-configured", Input{Tasks: two, Ops: []Op{{Kind: "fault", F: &Fault{"lost", 0}, Oc: a2}}})
-	add("corpus-internal-critical-running", Input{Tasks: two, Ops: []Op{{Kind: "cmd", Ev: "START", Oc: a2}, {Kind: "fault", F: &Fault{"internal", 0}, Oc: []string{"errerr", "ack"}}}})
+	add("corpus-critical-configured", Input{Tasks: two, Ops: []Op{{Kind: "fault", F: &Fault{Kind: "lost", V: 0}, Oc: a2}}})
+	add("corpus-internal-critical-running", Input{Tasks: two, Ops: []Op{{Kind: "cmd", Ev: "START", Oc: a2}, {Kind: "fault", F: &Fault{Kind: "internal", V: 0}, Oc: []string{"errerr", "ack"}}}})
 	// non-critical failures of every kind: nothing changes
 	add("corpus-noncritical-all-kinds", Input{Tasks: []c0203.Task{t(true, "direct", 1), t(false, "fairmq", 2), t(false, "basic", 3), t(false, "direct", 3)},
-		Ops: []Op{{Kind: "cmd", Ev: "START", Oc: acks(4)}, {Kind: "fault", F: &Fault{"killed", 1}, Oc: acks(4)}, {Kind: "fault", F: &Fault{"agent", 2}, Oc: acks(4)}, {Kind: "cmd", Ev: "STOP", Oc: acks(4)}}})
+		Ops: []Op{{Kind: "cmd", Ev: "START", Oc: acks(4)}, {Kind: "fault", F: &Fault{Kind: "killed", V: 1}, Oc: acks(4)}, {Kind: "fault", F: &Fault{Kind: "agent", V: 2}, Oc: acks(4)}, {Kind: "cmd", Ev: "STOP", Oc: acks(4)}}})
 	// racing with a request: the critical task dies inside before_START_ACTIVITY; nested workflow
 	add("corpus-race-start-critical", Input{Tasks: []c0203.Task{t(true, "direct", 1), t(true, "fairmq", 2), t(false, "basic", 2)}, Groups: []int{1, 0, 1},
-		Ops: []Op{{Kind: "cmdfault", Ev: "START", F: &Fault{"failed", 0}, Oc: acks(3)}}})
+		Ops: []Op{{Kind: "cmdfault", Ev: "START", F: &Fault{Kind: "failed", V: 0}, Oc: acks(3)}}})
 	add("corpus-race-stop-noncritical", Input{Tasks: []c0203.Task{t(true, "direct", 1), t(false, "fairmq", 2)},
-		Ops: []Op{{Kind: "cmd", Ev: "START", Oc: a2}, {Kind: "cmdfault", Ev: "STOP", F: &Fault{"executor", 1}, Oc: a2}}})
+		Ops: []Op{{Kind: "cmd", Ev: "START", Oc: a2}, {Kind: "cmdfault", Ev: "STOP", F: &Fault{Kind: "executor", V: 1}, Oc: a2}}})
 	// the ERROR of the dying task is held at the hand-over to its parent role and overtaken by a late
 	// reply of the same task (seeded change C03-1: the role re-reads its cache instead of passing on
 	// what it was called with)
 	sf := func(n, v int) []string { oc := acks(n); oc[v] = "sendfail"; return oc }
-	add("corpus-overtaken-running-critical", Input{Tasks: two, Ops: []Op{{Kind: "cmd", Ev: "START", Oc: a2}, {Kind: "race", F: &Fault{"failed", 0}, Late: "RUNNING", Oc: sf(2, 0)}}})
-	add("corpus-overtaken-configured-critical", Input{Tasks: two, Ops: []Op{{Kind: "race", F: &Fault{"lost", 0}, Late: "CONFIGURED", Oc: sf(2, 0)}}})
+	add("corpus-overtaken-running-critical", Input{Tasks: two, Ops: []Op{{Kind: "cmd", Ev: "START", Oc: a2}, {Kind: "race", F: &Fault{Kind: "failed", V: 0}, Late: "RUNNING", Oc: sf(2, 0)}}})
+	add("corpus-overtaken-configured-critical", Input{Tasks: two, Ops: []Op{{Kind: "race", F: &Fault{Kind: "lost", V: 0}, Late: "CONFIGURED", Oc: sf(2, 0)}}})
 	add("corpus-overtaken-running-nested", Input{Tasks: []c0203.Task{t(true, "direct", 1), t(true, "fairmq", 2), t(false, "basic", 2)}, Groups: []int{1, 1, 0},
-		Ops: []Op{{Kind: "cmd", Ev: "START", Oc: acks(3)}, {Kind: "race", F: &Fault{"killed", 1}, Late: "RUNNING", Oc: sf(3, 1)}}})
-	add("corpus-overtaken-noncritical", Input{Tasks: two, Ops: []Op{{Kind: "cmd", Ev: "START", Oc: a2}, {Kind: "race", F: &Fault{"failed", 1}, Late: "RUNNING", Oc: sf(2, 1)}, {Kind: "cmd", Ev: "STOP", Oc: a2}}})
+		Ops: []Op{{Kind: "cmd", Ev: "START", Oc: acks(3)}, {Kind: "race", F: &Fault{Kind: "killed", V: 1}, Late: "RUNNING", Oc: sf(3, 1)}}})
+	add("corpus-overtaken-noncritical", Input{Tasks: two, Ops: []Op{{Kind: "cmd", Ev: "START", Oc: a2}, {Kind: "race", F: &Fault{Kind: "failed", V: 1}, Late: "RUNNING", Oc: sf(2, 1)}, {Kind: "cmd", Ev: "STOP", Oc: a2}}})
+	// the label and the route of the report must not matter (seeded change C03-2: a terminal status
+	// with reason REASON_RECONCILIATION no longer puts the task in ERROR)
+	lab := func(kind string, v int, l Label) *Fault { return &Fault{Kind: kind, V: v, L: &l} }
+	add("corpus-label-reconciliation-reason-running-critical", Input{Tasks: two, Ops: []Op{{Kind: "cmd", Ev: "START", Oc: a2},
+		{Kind: "fault", F: lab("lost", 0, Label{Reason: "reconciliation", Src: "master", NoUUID: true}), Oc: a2}}})
+	add("corpus-label-reconnect-running-critical", Input{Tasks: two, Ops: []Op{{Kind: "cmd", Ev: "START", Oc: a2},
+		{Kind: "fault", F: lab("failed", 0, Label{Path: "reconnect"}), Oc: a2}}})
+	add("corpus-label-reconnect-configured-critical", Input{Tasks: two, Ops: []Op{{Kind: "fault", F: lab("killed", 0, Label{Path: "reconnect", Bare: true}), Oc: a2}}})
+	add("corpus-label-agent-removed-configured-critical", Input{Tasks: two, Ops: []Op{{Kind: "fault", F: lab("lost", 0, Label{Reason: "agent_removed", Src: "master"}), Oc: a2}}})
+	add("corpus-label-bare-running-critical", Input{Tasks: two, Ops: []Op{{Kind: "cmd", Ev: "START", Oc: a2},
+		{Kind: "fault", F: lab("error", 0, Label{Reason: "none", Src: "none", Bare: true, NoUUID: true}), Oc: a2}}})
+	add("corpus-label-executor-bare-critical", Input{Tasks: two, Ops: []Op{{Kind: "cmd", Ev: "START", Oc: a2}, {Kind: "fault", F: lab("executor", 0, Label{Bare: true}), Oc: a2}}})
+	add("corpus-label-noncritical", Input{Tasks: []c0203.Task{t(true, "direct", 1), t(false, "fairmq", 2), t(false, "basic", 3)},
+		Ops: []Op{{Kind: "cmd", Ev: "START", Oc: acks(3)}, {Kind: "fault", F: lab("lost", 1, Label{Path: "reconnect"}), Oc: acks(3)},
+			{Kind: "fault", F: lab("failed", 2, Label{Reason: "reconciliation", Src: "master", NoUUID: true}), Oc: acks(3)}, {Kind: "cmd", Ev: "STOP", Oc: acks(3)}}})
 	return js
 }
 
@@ -1120,7 +1276,11 @@ func childMain(inFile, outFile string, wid int) {
 		fmt.Fprintln(os.Stderr, err)
 		os.Exit(2)
 	}
-	w, err := c0203.NewWorld(filepath.Join(buildDir(), "sim", fmt.Sprintf("c03w%d", wid)), 3, os.Getenv("SIM_VERBOSE") != "")
+	// one scratch directory per worker process: a second `./check C03` running at the same time must
+	// not wipe the workflow repository under a live core
+	simDir := filepath.Join(buildDir(), "sim", fmt.Sprintf("c03w%dp%d", wid, os.Getpid()))
+	defer os.RemoveAll(simDir)
+	w, err := c0203.NewWorld(simDir, 3, os.Getenv("SIM_VERBOSE") != "")
 	if err != nil {
 		fmt.Fprintln(os.Stderr, "world:", err)
 		os.Exit(2)
@@ -1136,6 +1296,7 @@ func childMain(inFile, outFile string, wid int) {
 		obs, wedged := runCase(w, j.Idx, j.In)
 		if wedged && os.Getenv("H03_LAST_TRY") == "" {
 			f.Close()
+			os.RemoveAll(simDir)
 			os.Exit(3)
 		}
 		if obs == nil {
@@ -1145,6 +1306,7 @@ func childMain(inFile, outFile string, wid int) {
 		f.Sync()
 	}
 	f.Close()
+	os.RemoveAll(simDir)
 	os.Exit(0)
 }
 
@@ -1171,8 +1333,8 @@ func runWorkers(o gen.Opts, jobs []job, workers int) map[int][]StepObs {
 			defer wg.Done()
 			todo := parts[wi]
 			for attempt := 0; attempt < 6 && len(todo) > 0; attempt++ {
-				inF := filepath.Join(o.Out, fmt.Sprintf("w%d_%d_in.json", wi, attempt))
-				outF := filepath.Join(o.Out, fmt.Sprintf("w%d_%d_out.json", wi, attempt))
+				inF := filepath.Join(o.Out, fmt.Sprintf("w%d_%d_p%d_in.json", wi, attempt, os.Getpid()))
+				outF := filepath.Join(o.Out, fmt.Sprintf("w%d_%d_p%d_out.json", wi, attempt, os.Getpid()))
 				b, _ := json.Marshal(todo)
 				_ = os.WriteFile(inF, b, 0o644)
 				os.Remove(outF)
@@ -1268,6 +1430,7 @@ func main() {
 	lost := 0
 	faultKinds := map[string]int{}
 	instants := map[string]int{}
+	labels := map[string]int{}
 	for _, j := range jobs {
 		obs, ok := res[j.Idx]
 		if !ok {
@@ -1281,6 +1444,19 @@ func main() {
 		for _, op := range j.In.Ops {
 			if op.F != nil {
 				faultKinds[op.F.Kind]++
+				if op.F.L != nil {
+					if op.F.L.Path == "reconnect" {
+						labels["route=reconciliation-after-reconnect"]++
+					} else {
+						labels["reason="+op.F.L.Reason]++
+						labels["source="+op.F.L.Src]++
+					}
+					if op.F.L.Bare {
+						labels["bare"]++
+					}
+				} else if op.F.Kind != "internal" && op.F.Kind != "agent" {
+					labels["as-the-executor-reports"]++
+				}
 				if op.Kind == "race" {
 					instants["idle-overtaken-at-the-leaf"]++
 				} else if op.Kind == "fault" {
@@ -1304,7 +1480,7 @@ func main() {
 	sort.Strings(ik)
 	extra := map[string]any{"workers": workers, "cases_lost_to_worker_crash": lost,
 		"worker_respawns_after_lost_deploy_verdict_or_crash": respawns, "run_s": time.Since(t0).Seconds(),
-		"fault_kinds": fk, "fault_instants": ik}
+		"fault_kinds": fk, "fault_instants": ik, "fault_labels": labels}
 	if err := gen.WriteCases(o, "C03", "From Verif Require Import Common RoleTree TaskCmd Watcher.", "c03_case", "report03", cases, extra); err != nil {
 		fmt.Fprintln(os.Stderr, err)
 		os.Exit(2)
